@@ -620,6 +620,8 @@ type modelParams struct {
 	Literal  bool     `json:"literal"` // literal mainnet activation heights and the real 288 window
 	// AlignV20Dev forces V20DevRewardsHeightActivation % 144 to this value (0 = tagged wedge scenario); -1 = off
 	AlignV20Dev int `json:"align_v20dev"`
+	// AlignV202: 1 + the wanted value of V202EnhanceActivation % 144 (0 = leave as drawn)
+	AlignV202 int `json:"align_v202"`
 }
 
 func init() {
@@ -664,6 +666,7 @@ func modelRun(j *orch.Job, r *orch.Result) error {
 	r.Info["eras"] = e
 	r.Info["tip"] = tip
 	r.Seen("v20dev_alignment", fmt.Sprint(e.V20Dev%144))
+	r.Seen("v202_alignment", fmt.Sprint(e.V202%144))
 	for _, mm := range mon.Mism {
 		for _, pr := range mm.Props {
 			r.Violate(pr, mm.Sig, mm.Detail, mm.Case)
